@@ -158,6 +158,7 @@ SKELETONS = {
     "arrow-default-param": "const d = (x⟦:T⟧ = 2, { y = 3 }⟦:T⟧ = {})⟦:R⟧ => x * y; [d(), d(4), d(4, { y: 1 })].join()",
     "destructuring": "const { p, q: [r, s = 9] }⟦:T⟧ = { p: 1, q: [2] }; const [u, , v = 5, ...w]⟦:T⟧ = [1, 2, undefined, 4, 5]; function g({ a, b = 2 }⟦:T⟧, [c]⟦:T⟧)⟦:R⟧ { return a + b + c; } [p, r, s, u, v, w.length, g({ a: 1 }, [3])].join()",
     "class-members": "⟦S⟧ class P⟦<P>⟧ ⟦impl⟧ { ⟦M⟧ x⟦:T⟧ = 1; ⟦M⟧ y⟦?⟧⟦:T⟧; static count⟦:T⟧ = 0; ⟦ov:label: ⟦T⟧;⟧ constructor(a⟦:T⟧, b⟦?⟧⟦:T⟧) { this.x = a; this.y = b; P.count++; } ⟦M⟧ sum⟦<P>⟧(k⟦:T⟧)⟦:R⟧ { return this.x + (this.y⟦!⟧ ?? 0) + k; } get dbl()⟦:R⟧ { return this.x * 2; } set dbl(v⟦:T⟧) { this.x = v / 2; } static make⟦<P>⟧(n⟦:T⟧)⟦:R⟧ { return new P⟦<A>⟧(n); } } const o = new P⟦<A>⟧(2, 3); o.dbl = 10; [o.sum(1), o.dbl, P.make(4).x, P.count].join()",
+    "class-bare-fields": "class Base0 { constructor() { this.init(); } init() {} } class D0⟦<P>⟧ extends Base0 { ⟦M⟧ x⟦:T⟧; ⟦M⟧ y⟦?⟧⟦:T⟧; z⟦:T⟧ = 1; w⟦:T⟧; init() { this.x = 'early'; this.w = 'early'; } } class E0 { a⟦:T⟧; b⟦?⟧⟦:T⟧; constructor() { this.b = 2; } } const o0 = new D0(); const e0 = new E0(); JSON.stringify([Object.keys(o0), o0.x === undefined, 'y' in o0, Object.prototype.hasOwnProperty.call(o0, 'w'), Object.keys(e0), 'a' in e0])",
     "class-inheritance": "class A⟦<P>⟧ { ⟦M⟧ v⟦:T⟧; constructor(v⟦:T⟧) { this.v = v; } ⟦M⟧ get(⟦this⟧)⟦:R⟧ { return this.v; } } class B⟦<P>⟧ extends A ⟦impl⟧ { ⟦M⟧ w⟦:T⟧ = 5; constructor() { super(3); } ⟦M⟧ get()⟦:R⟧ { return super.get() + this.w; } } new B().get() + ':' + (new B() instanceof A)",
     "method-overloads": "class Q { ⟦ov:run(a: ⟦T⟧): ⟦T⟧;⟧ ⟦ov:run(a: ⟦T⟧, b: ⟦T⟧): ⟦T⟧;⟧ run(a⟦:T⟧, b⟦?⟧⟦:T⟧)⟦:R⟧ { return b ? a + b : a; } } new Q().run(1) + new Q().run(1, 2)",
     "generic-calls": "function id⟦<P>⟧(x⟦:T⟧)⟦:R⟧ { return x; } const m = new Map⟦<A>⟧(); m.set('a', id⟦<A>⟧(1)); const arr = [1, 2, 3].map⟦<A>⟧((x⟦:T⟧)⟦:R⟧ => x + 1); const s = new Set⟦<A>⟧([1, 1, 2]); const p = Promise.resolve⟦<A>⟧(4); [m.get('a'), arr.join('+'), s.size, id⟦<A>⟧('z'), typeof p].join()",
